@@ -18,6 +18,11 @@ Inductive case :=
    unambiguous), receivers late / mixed / prompt, possibly idle for seconds while deliveries are
    pending; evs in the order in which things happened; impl as for Fan *)
 | FanI (evs : list fev) (chans : list N) (impl : list (list msg))
+(* Ops / FanI with the OTHER operations of the communication layer among them (CloseSession, Broadcast,
+   the health check, a stream handler run on a stream without a message): the runner looks at the
+   subscriber lists after every operation, the other ones included *)
+| OpsX (U : univ) (xs : list xop) (impl : list obs)
+| FanIX (xs : list xfev) (chans : list N) (impl : list (list msg))
 (* several goroutines, each running its own program ths[i] on ONE Libp2pCommunication (held by value
    in interfaces, as the tss code holds it): impl = per thread, per operation, the lookups of the
    operation's (session, type) made right after it (GetSubscribers; for a delivery also the channels
@@ -66,6 +71,8 @@ Definition agree (c : case) : bool :=
   | Ops U ops impl => obsl_eqb (trace_c unwrap U c_init ops) impl
   | Fan ops msgs chans impl => fan_ok (recv_c (fst (run_c unwrap c_init ops)) msgs) chans impl
   | FanI evs chans impl => fan_ok (recvi_c c_init evs) chans impl
+  | OpsX U xs impl => obsl_eqb (xtrace_c unwrap U c_init xs) impl
+  | FanIX xs chans impl => fan_ok (recvix_c c_init xs) chans impl
   | Conc ths impl U final crashed races =>
       (* under any schedule the model of the code (Model.C12 sched) shows each thread exactly what
          the judge demands of a lookup (theorems C12_conc_...): nothing of a concurrent run is compared beyond that;
@@ -86,6 +93,9 @@ Definition judge (c : case) : bool :=
       if types_declared ops && msgs_declared msgs then judge_fan ops msgs chans impl else true
   | FanI evs chans impl =>
       if types_declared (fops evs) && msgs_declared (fmsgs evs) then judge_fani evs chans impl else true
+  | OpsX U xs impl => if types_declared (xops_of xs) then judge_xops U xs impl else true
+  | FanIX xs chans impl =>
+      if types_declared (fops (xfevs_of xs)) && msgs_declared (fmsgs (xfevs_of xs)) then judge_fanix xs chans impl else true
   | Conc ths impl U final crashed races =>
       if forallb types_declared ths then judge_conc_fast ths impl U final crashed races else true
   | Unw s t u impl => unwrap_ok s t u impl
@@ -105,6 +115,10 @@ Definition tag (c : case) : N :=
                         + (if wf_ops ops then 0 else 4)
   | FanI evs _ _ => 64 + (if has_hy_session (fops evs) then 1 else 0) + (if has_unsub (fops evs) then 2 else 0)
                     + (if wf_ops (fops evs) then 0 else 4)
+  | OpsX _ xs _ => 128 + (if has_hy_session (xops_of xs) then 1 else 0) + (if has_unsub (xops_of xs) then 2 else 0)
+                    + (if wf_ops (xops_of xs) then 0 else 4)
+  | FanIX xs _ _ => 192 + (if has_hy_session (fops (xfevs_of xs)) then 1 else 0) + (if has_unsub (fops (xfevs_of xs)) then 2 else 0)
+                    + (if wf_ops (fops (xfevs_of xs)) then 0 else 4)
   | Conc ths _ _ _ crashed races =>
       32 + (if existsb has_hy_session ths then 1 else 0) + (if existsb has_unsub ths then 2 else 0)
       + (if crashed then 4 else 0) + (match races with O => 0 | _ => 8 end)
